@@ -118,6 +118,7 @@ func (p c19) Gen(c *run.Ctx, idx int) (json.RawMessage, error) {
 			prefix = fmt.Sprintf("%d.variables.", oi)
 		}
 		used := map[string]bool{}
+		var extraSels []string
 		nf := 1 + r.Intn(3)
 		for k := 0; k < nf; k++ {
 			switch fld := pick(r, []string{"upOne", "upMany", "upIn", "upEnt", "upTwo"}); fld {
@@ -129,6 +130,10 @@ func (p c19) Gen(c *run.Ctx, idx int) (json.RawMessage, error) {
 				vars["f0"] = nil
 				sels = append(sels, "upOne(file: $f0)")
 				slots = append(slots, slot{prefix + "f0"})
+				if r.Intn(3) == 0 {
+					// a literal that spells the name of the upload variable, in a field that does not use the variable
+					extraSels = append(extraSels, `lit: upMany(files: [], tag: "f0")`)
+				}
 			case "upMany":
 				if used[fld] {
 					continue
@@ -147,8 +152,15 @@ func (p c19) Gen(c *run.Ctx, idx int) (json.RawMessage, error) {
 				defs = append(defs, "$in: FileIn")
 				vars["in"] = map[string]any{"f": nil, "fs": []any{nil, nil}, "note": "n", "inner": map[string]any{"g": nil, "gs": []any{}}}
 				sels = append(sels, "upIn(in: $in)")
-				if r.Intn(2) == 0 {
+				switch r.Intn(4) {
+				case 0, 1:
 					sels = append(sels, "upIn2(in: $in)")
+				case 2:
+					// files inside a list of input objects: variables.ins.0.f, variables.ins.1.inner.g
+					defs = append(defs, "$ins: [FileIn]")
+					vars["ins"] = []any{map[string]any{"f": nil, "note": "first"}, map[string]any{"f": nil, "inner": map[string]any{"g": nil}}}
+					sels = append(sels, "upIn2(in: $in, ins: $ins)")
+					slots = append(slots, slot{prefix + "ins.0.f"}, slot{prefix + "ins.1.f"}, slot{prefix + "ins.1.inner.g"})
 				}
 				slots = append(slots, slot{prefix + "in.f"}, slot{prefix + "in.fs.0"}, slot{prefix + "in.fs.1"}, slot{prefix + "in.inner.g"})
 			case "upEnt":
@@ -175,6 +187,7 @@ func (p c19) Gen(c *run.Ctx, idx int) (json.RawMessage, error) {
 			used["upEnt"] = used["upEnt"] || strings.HasPrefix(sels[len(sels)-1], "upEnt")
 			used["upTwo"] = used["upTwo"] || strings.HasPrefix(sels[len(sels)-1], "upTwo")
 		}
+		sels = append(sels, extraSels...)
 		shared := r.Intn(4) == 0
 		if idx%40 == 11 && oi == 0 {
 			shared = true
